@@ -68,3 +68,16 @@ MUTANTS += [
     ("c18-hash-leaks", "C18", P + "partial.py", "        return hash((\"Partial\", self._original_expression))", "        return hash((\"Partial\", self._original_expression)) + (hash(self._variable_name) % 1)", "order-analysis", False),
     ("c18-id-in-repr", "C18", P + "derivative.py", "        return f\"Derivative({self._original_expression})\"", "        return f\"Derivative({self._original_expression})\" + str(id(self))[:0]", "order-analysis", True),
 ]
+
+MUTANTS += [
+    ("c09-at-loses-reset", "C09", B + "expression.py", "        if isinstance(point, pt.Point):\n            self._reset_evaluation_cache()\n            return self._evaluate(point)", "        if isinstance(point, pt.Point):\n            return self._evaluate(point)", ".at(", True),
+    ("c09-reset-does-not-recurse", "C09", B + "unary_expression.py", "        self._value = None\n        self._inner._reset_evaluation_cache()", "        self._value = None", "_reset_evaluation_cache", True),
+    ("c09-memo-before-domain-check", "C09", B + "unary_expression.py", "        self._verify_domain_constraints(inner_value)\n        self._value = self._value_formula(inner_value)\n        return self._value", "        self._value = inner_value\n        self._verify_domain_constraints(inner_value)\n        self._value = self._value_formula(inner_value)\n        return self._value", "_evaluate", True),
+    ("c09-partial-at-loses-reset", "C09", P + "partial.py", "            self._original_expression._reset_evaluation_cache()\n            return self._original_expression._numeric_partial(self._variable_name, point)", "            return self._original_expression._numeric_partial(self._variable_name, point)", "Partial", True),
+    ("c06-component-wrong-key", "C06", P + "differential.py", "        synthetic_partial = self._synthetic_partials.get(variable_name, None)", "        synthetic_partial = self._synthetic_partials.get(\"x\", None)", "Differential(early)", True),
+    ("c06-early-partial-skips-original", "C06", P + "partial.py", "            self._original_expression.at(point)\n            return self._synthetic_partial.at(point)", "            return self._synthetic_partial.at(point)", "Partial(early)", True),
+    ("c07-early-partial-skips-original", "C07", P + "partial.py", "            self._original_expression.at(point)\n            return self._synthetic_partial.at(point)", "            return self._synthetic_partial.at(point)", "Partial(early)", True),
+    ("c17-log-guard-removed", "C17", E + "logarithm.py", "        if inner_value == 0:\n            raise er.DomainError(\"Logarithm(x) blows up around x = 0\")\n        elif inner_value < 0:\n            raise er.DomainError(\"Logarithm(x) is undefined for x < 0\")", "        pass", "Logarithm", True),
+    ("c17-rule-builds-zeroth-power", "C17", E + "nth_power.py", "return ex.NthPower(self._inner._inner, self.n * self._inner.n)", "return ex.NthPower(self._inner._inner, self.n - self._inner.n)", "NthPower._reduce_nth_power_of_mth_power", True),
+    ("c17-abstract-method-left", "C17", E + "sine.py", "    def _verify_domain_constraints(", "    def _verify_domain_constraints_renamed(", "abstract", True),
+]
